@@ -6,6 +6,7 @@ import (
 	"go/token"
 	"os"
 	"path/filepath"
+	"sort"
 	"strings"
 
 	"golang.org/x/tools/go/packages"
@@ -222,6 +223,18 @@ func (c *Config) ValidateAndFillDefaults(baseDir string) error {
 			"\nExample: \"github.com/Org/Repo/optional.Value\"")
 	}
 
+	var emptyBindings []string
+	for name, binding := range c.Bindings {
+		if binding == nil { // e.g. `bindings: {DateTime: }` in the yaml
+			emptyBindings = append(emptyBindings, name)
+		}
+	}
+	if len(emptyBindings) > 0 {
+		sort.Strings(emptyBindings)
+		return errorf(nil, "bindings entry for %v is empty (it must at least set `type`)",
+			strings.Join(emptyBindings, ", "))
+	}
+
 	if c.Package != "" && !token.IsIdentifier(c.Package) {
 		// No need for link here -- if you're already setting the package
 		// you know where to set the package.
@@ -259,6 +272,10 @@ func (c *Config) ValidateAndFillDefaults(baseDir string) error {
 
 	if len(c.PackageBindings) > 0 {
 		for _, binding := range c.PackageBindings {
+			if binding == nil {
+				return errorf(nil, "package_bindings has an empty entry (each must set `package`)")
+			}
+
 			if strings.HasSuffix(binding.Package, ".go") {
 				// total heuristic -- but this is an easy mistake to make and
 				// results in rather bizarre behavior from go/packages.
